@@ -63,7 +63,7 @@ def build(tier, seed):
         'bounds': {'alphabet': [-1, 0, 1], 'max_len': L, 'dt': dts, 'T_over_dt': Q_RATIO if quick else T_RATIO,
                    'xi': Q_XI if quick else T_XI, 'long_families': fams},
         'required_classes': ['T<6dt', 'T>=6dt', 'T<dt', 'xi=0', 'xi>=0.9', 'leading-zero', 'multi-period', 'long-family',
-                             'entry:response_series', 'entry:nigam', 'entry:object', 'entry:object-reused', 'entry:object-defaults', 'dtype-variant'],
+                             'entry:response_series', 'entry:nigam', 'entry:object', 'entry:object-reused', 'entry:object-defaults', 'dtype-variant', 'period-dtype-variant'],
         'assumptions': ['oracle: 40-digit closed-form per-step solution (mpmath), witnessed by a longdouble evaluation and by the ODE residual',
                         'dt, T/dt and xi only on the finite menus; record values in {-1,0,1}',
                         'errors are normalised by the peak of the exact series; where that fails, by the peak of the exact continuous-time '
@@ -222,6 +222,46 @@ def run_case(case):
                             r.fail('dtype.same-values-same-response', dict(sub, entry=ename),
                                    'the response of the record given as %s differs from the response of the same values as float64' % nm,
                                    observed=got[0], expected=want[0])
+    # ---- the periods' container / dtype is not part of the quantifier either: the same period VALUES in a float32 / float16 array,
+    # an integer array or a list of ints (where the value is a whole number) give the response for those values.  Both executions
+    # are within the property's tolerance of the exact solution, so they differ by at most twice that tolerance.
+    if 'fam' not in case:
+        af = np.array(rec, dtype=float)
+        w_amax = float(np.max(np.abs(af)))
+        for ratio, xi in ((0.5, 0.05), (5.9, 0.0), (20, 0.5), (1000, 0.05)):
+            T = float(ratio * dt)
+            variants = []
+            for nm, pd in (('float32', np.float32), ('float16', np.float16)):
+                with np.errstate(all='ignore'):
+                    Tp = float(pd(T))
+                if np.isfinite(Tp) and Tp > 0 and LO <= Tp / dt <= HI:
+                    variants.append((nm, Tp, np.array([0.0, Tp], dtype=pd)))
+            if T == int(T) and T >= 1:
+                variants.append(('int64', T, np.array([0, int(T)], dtype=np.int64)))
+                variants.append(('list-of-int', T, [0, int(T)]))
+            for nm, Tp, pvar in variants:
+                sub = {'rec': rid, 'dt': dt, 'T': Tp, 'xi': xi, 'periods': nm}
+                ok0, want = r.call('period-dtype', dict(sub, periods='float64'), sdof.response_series, af, dt, np.array([0.0, Tp]), xi)
+                if not ok0:
+                    continue
+                r.cls('period-dtype-variant')
+                tol2 = 2 * ref.tolerance(dt, Tp, n)
+                w_ = 2 * np.pi / Tp
+                for ename, fn in (('response_series', lambda: sdof.response_series(af, dt, pvar, xi)),
+                                  ('nigam', lambda: sdof.nigam_and_jennings_response(af, dt, pvar, xi)),
+                                  ('object', lambda: eqsig.AccSignal(af, dt).response_series(response_times=pvar, xi=xi))):
+                    ok, got = r.call('period-dtype', dict(sub, entry=ename), fn)
+                    if not ok:
+                        continue
+                    try:
+                        for k_, floor in ((0, 1e-3 * w_amax / w_ ** 2), (1, 1e-3 * w_amax / w_)):
+                            g_, w0 = np.asarray(got[k_], dtype=float), np.asarray(want[k_], dtype=float)
+                            sc = max(float(np.max(np.abs(w0[1]))), floor)
+                            r.expect_close('period-dtype.same-values-same-response', dict(sub, entry=ename, series='uv'[k_]), g_, w0,
+                                           rtol=0, atol=tol2 * sc + 1e-300,
+                                           what='periods given as %s vs the same period values as float64' % nm)
+                    except Exception as e:
+                        r.fail('period-dtype.same-values-same-response', dict(sub, entry=ename), 'malformed result: %s' % e, observed=got)
     if nontriv:
         r.nontrivial += 1
     return r
